@@ -776,7 +776,20 @@ pub fn run_group_case(case: &GroupCase, std_cfg: bool, trace: bool) -> GroupOut 
             },
         )
     });
-    let g = build_group(case, top);
+    // from_iter / with_capacity are library code too
+    let built = std::panic::catch_unwind(std::panic::AssertUnwindSafe(|| build_group(case, top)));
+    let g = match built {
+        Ok(g) => g,
+        Err(e) => {
+            let msg = world::panic_msg(&e);
+            world::with(|w| w.violate_f(Oracle::Group(case.fam), Some(case.fam), format!("constructing the group ({}) panicked: {}", match case.init { Init::New => "new", Init::WithCap(_) => "with_capacity", Init::FromIter(_) => "from_iter / collect" }, msg)));
+            let world = world::take_world();
+            return GroupOut {
+                run: RunOut { world, top, inconclusive: None, quiescent: false, dropped_early: false, injected_panic: false, spurious_polls: 0, waker_changes_while_parked: 0 },
+                stats: GroupStats::default(),
+            };
+        }
+    };
     let mut ex = Exec::with_top(top, Top::G(g));
     if let Some(g) = ex.group() {
         g.check_view("construction");
